@@ -221,7 +221,7 @@ DtsReadsBack(c) ==
             /\ d.cols = [k \in 1..Len(c.cols) |-> DtsCol(c, c.cols[k])]
 DtsRepresentationFree(c) ==
   \A o \in DtsOrders : DtypeToStruct([c EXCEPT !.order = o]) = DtypeToStruct(c)
-(* D-X08-1: a unicode column is declared with its size in bytes (4 per character) *)
+(* D-X08-1 (fixed in e02f4b5): a unicode column was declared with its size in bytes (4 per character) *)
 Dev_UnicodeBytes(c) ==
   DtypeToStruct([c EXCEPT !.cols = [k \in 1..Len(c.cols) |->
                     IF c.cols[k].kind = "U" THEN [c.cols[k] EXCEPT !.w = 4 * @] ELSE c.cols[k]]])
@@ -306,16 +306,22 @@ Accessors(text) == AccessorsOf(SpecParse(text), TypedefBlocks(text), StructBlock
 (***************************************************************************)
 (* Named deviations of pydl found by this unit (known_findings.json, ids   *)
 (* D-X08-n; Dev_UnicodeBytes = D-X08-1 is defined with S4).  Each is the   *)
-(* predicate on the TEXT that identifies the affected files; strict runs   *)
-(* use them only to attach the id to a failing case.                       *)
+(* predicate on the TEXT that identifies the affected files.  D-X08-1, -2, *)
+(* -4 and -5 have since been FIXED in pydl (commits e02f4b5, 5694952,      *)
+(* 161c2c9, 6324a90): their operators stay as documentation and to label a *)
+(* regression; they excuse nothing.  Only D-X08-3 (= D-C02-4) is still     *)
+(* known.  A failing case is named after a deviation only when every       *)
+(* differing part of the observation is what that deviation produces       *)
+(* (Trace_YannyParts!AccWhy, harness findings_of), and only a deviation    *)
+(* whose status in known_findings.json is "known" suppresses a VIOLATION.  *)
 (***************************************************************************)
-(* D-X08-2: a ';' inside a comment of a typedef is taken for the end of a member declaration (phantom members) *)
+(* D-X08-2 (fixed in 5694952): a ';' inside a comment of a typedef was taken for the end of a member declaration *)
 Dev_SemicolonInTypedefComment(text) == Accessors(text).notes.semicolon
 (* D-X08-3 = D-C02-4: a brace inside a comment of a typedef ends the typedef early *)
 Dev_BraceInTypedefComment(text) == Accessors(text).notes.brace
-(* D-X08-4: "is it a char member" is decided by searching the letters "char" in the type text *)
+(* D-X08-4 (fixed in 161c2c9): "is it a char member" was decided by searching the letters "char" in the type text *)
 Dev_CharInTypeName(text) == Accessors(text).notes.charname
-(* D-X08-5: a char NAME[n][] member holding only empty strings gets the numpy type ('S0', (n,)), which numpy refuses *)
+(* D-X08-5 (fixed in 6324a90): a char NAME[n][] member holding only empty strings got the numpy type ('S0', (n,)) *)
 Dev_EmptyAutoWidthArray(text) == Accessors(text).notes.emptyauto
 
 (* the struct blocks and the reference reader agree on what the text declares *)
